@@ -310,6 +310,10 @@ def make_class(rnd, i):
             import collections
 
             cls = collections.namedtuple(f"NT{i}", names, defaults=[float(j) for j in range(nf - ndef, nf)])
+        if rnd.random() < 0.3:
+            # the usual idiom: a class deriving from the generated tuple class (to add methods / a docstring)
+            cls = type(f"NTSub{i}", (cls,), {"__slots__": (), "describe": lambda self: "x"})
+            kind = "namedtuple-subclass"
     return cls, names, ndef, kind
 
 
